@@ -45,3 +45,109 @@ def snapshot(graph: NxMixedGraph):
         list(graph.directed.edges()),
         list(graph.undirected.edges()),
     )
+
+
+class StepBudgetExceeded(Exception):
+    """Deterministic non-termination guard: a recursive entry point was called absurdly often."""
+
+
+class CallTrace:
+    """Count calls of module-level functions (monkeypatched for the duration of a ``with`` block).
+
+    Used only for labels; a name that no longer exists is recorded as 'unknown:<name>' and ignored.
+    """
+
+    def __init__(self, module, names, budget=None):
+        self.module = module
+        self.names = list(names)
+        self.budget = budget or {}
+        self.calls = {}
+        self._saved = {}
+        self.observers = {}
+
+    def observe(self, name, fn):
+        """fn(args, kwargs, result) is called after each call of ``name``."""
+        self.observers[name] = fn
+        return self
+
+    def __enter__(self):
+        for n in self.names:
+            orig = getattr(self.module, n, None)
+            if orig is None:
+                self.calls["unknown:" + n] = 1
+                continue
+            self._saved[n] = orig
+
+            def wrapper(*a, __orig=orig, __n=n, **k):
+                self.calls[__n] = self.calls.get(__n, 0) + 1
+                if __n in self.budget and self.calls[__n] > self.budget[__n]:
+                    raise StepBudgetExceeded(f"{__n} called more than {self.budget[__n]} times")
+                r = __orig(*a, **k)
+                ob = self.observers.get(__n)
+                if ob is not None:
+                    ob(a, k, r)
+                return r
+
+            setattr(self.module, n, wrapper)
+        return self
+
+    def __exit__(self, *exc):
+        for n, orig in self._saved.items():
+            setattr(self.module, n, orig)
+        return False
+
+
+class ReentryGuard:
+    """Deterministic non-termination detector for a recursive module-level function whose control flow depends only
+    on a state key of its argument: if the same key is entered twice on one call stack, the recursion cannot end.
+    Raises StepBudgetExceeded at the re-entry (no wall clock involved).  Also counts calls and maximum depth."""
+
+    def __init__(self, module, name, keyfn, max_calls=200000):
+        self.module, self.name, self.keyfn, self.max_calls = module, name, keyfn, max_calls
+        self.stack = []
+        self.calls = 0
+        self.max_depth = 0
+        self._orig = None
+
+    def __enter__(self):
+        self._orig = getattr(self.module, self.name, None)
+        if self._orig is None:
+            return self
+        orig = self._orig
+
+        def wrapper(*a, **k):
+            self.calls += 1
+            if self.calls > self.max_calls:
+                raise StepBudgetExceeded(f"{self.name} called more than {self.max_calls} times")
+            try:
+                key = self.keyfn(*a, **k)
+            except Exception:
+                key = None
+            if key is not None and key in self.stack:
+                raise StepBudgetExceeded(f"{self.name} re-entered with an identical sub-problem {key!r}: infinite recursion")
+            self.stack.append(key)
+            self.max_depth = max(self.max_depth, len(self.stack))
+            try:
+                return orig(*a, **k)
+            finally:
+                self.stack.pop()
+
+        setattr(self.module, self.name, wrapper)
+        return self
+
+    def __exit__(self, *exc):
+        if self._orig is not None:
+            setattr(self.module, self.name, self._orig)
+        return False
+
+
+def identification_key(identification):
+    g = identification.graph
+    return (
+        tuple(sorted(n.name for n in g.nodes())),
+        tuple(sorted((u.name, v.name) for u, v in g.directed.edges())),
+        tuple(sorted(tuple(sorted((u.name, v.name))) for u, v in g.undirected.edges())),
+        tuple(sorted(v.name for v in identification.treatments)),
+        tuple(sorted(v.name for v in identification.outcomes)),
+        tuple(sorted(v.name for v in identification.conditions)),
+    )
